@@ -440,7 +440,8 @@ def main(argv=None):
         if cl.name in seen_fail or any(("clause %s " % cl.name) in h for h in harness_errors):
             continue
         if ev == 0:
-            harness_errors.append("clause %s generated no cases" % cl.name)
+            if not (tier == "quick" and getattr(cl, "thorough_only", False)):
+                harness_errors.append("clause %s generated no cases" % cl.name)
             continue
         # declared floors (min_nontrivial, require=) are the generator's design targets; the run is declared unhealthy
         # (exit 2) when a share falls below HEALTH_SCALE of its target.  Seed-to-seed scatter of the shares is about
